@@ -101,6 +101,11 @@ func parseRaceReports(txt string) []raceReport {
 				if strings.HasPrefix(f, "runtime.") || strings.HasPrefix(f, "sync.") || strings.HasPrefix(f, "sync/atomic.") || strings.HasPrefix(f, "internal/") {
 					continue
 				}
+				// the transport copying into / out of a buffer its caller gave it acts
+				// for that caller (io.ReadFull -> Transport.Read)
+				if strings.HasPrefix(f, "io.") || strings.HasPrefix(f, "verif/sim.(*Conn).Read ") || strings.HasPrefix(f, "verif/sim.(*Conn).Write ") {
+					continue
+				}
 				return f
 			}
 			return ""
